@@ -28,6 +28,7 @@ func runC08(c *eng.Ctx) {
 	ruleRebuildIndexAcceptsGaps(c)
 	c.Rule("R08.1", "K1")
 	ruleKeylessMessagesAreNotTracked(c)
+	ruleKeyScanCoversEverySegment(c)
 	p := c.P
 	// ---- R08.1 retention predicate
 	c.Rule("R08.1", "K1")
@@ -154,65 +155,7 @@ func runC08(c *eng.Ctx) {
 
 	// ---- R08.2 newest segment untouched
 	c.Rule("R08.2", "K5")
-	if fn := c.Fn(cl + "(*compactCleaner).compact"); fn != nil {
-		// the loop ranges over segments[:len(segments)-1]
-		okRange := false
-		eng.Instrs(fn, func(in ssa.Instruction) {
-			if sl, ok := in.(*ssa.Slice); ok && eng.Param("segments")(sl.X) && sl.Low == nil && sl.High != nil {
-				if eng.Bin(token.SUB, eng.Len(eng.Param("segments")), eng.IntConst(1))(sl.High) {
-					okRange = true
-				}
-			}
-		})
-		c.Check(okRange, "compaction skips the newest segment", p.Pos(fn.Pos()), "cleanSegment is applied to segments[:len(segments)-1]", "compact does not exclude the last (active) segment from rewriting")
-		for _, cs := range eng.CallsIn(fn, cl+"compactCleaner.cleanSegment") {
-			seg := eng.ArgOf(cs.Common(), "seg")
-			if seg == nil {
-				seg = cs.Common().Args[len(cs.Common().Args)-3]
-			}
-			ia := indexOfLoad(seg)
-			ok := false
-			if ia != nil {
-				if sl, ok2 := ia.X.(*ssa.Slice); ok2 && sl.High != nil {
-					ok = true
-				}
-			}
-			c.Check(ok, "cleanSegment argument", c.Pos(cs.(ssa.Instruction)), "an element of segments[:len-1]", "cleanSegment is applied to a segment that is not taken from segments[:len-1]")
-		}
-		// last appended unchanged
-		okLast := false
-		eng.Instrs(fn, func(in ssa.Instruction) {
-			call, ok := in.(*ssa.Call)
-			if !ok {
-				return
-			}
-			b, ok := call.Call.Value.(*ssa.Builtin)
-			if !ok || b.Name() != "append" {
-				return
-			}
-			el := variadicElems(call.Call.Args[1])
-			if len(el) == 1 {
-				if ia := indexOfLoad(el[0]); ia != nil && eng.Param("segments")(ia.X) && eng.Bin(token.SUB, eng.Len(eng.Param("segments")), eng.IntConst(1))(ia.Index) {
-					okLast = true
-				}
-			}
-		})
-		c.Check(okLast, "newest segment carried over unchanged", p.Pos(fn.Pos()), "compacted = append(compacted, segments[len-1])", "the newest segment is not appended unchanged to the compacted list")
-	}
-	if fn := c.Fn(cl + "(*compactCleaner).Compact"); fn != nil {
-		few := eng.CmpEdges(fn, eng.Len(eng.Param("segments")), eng.IntConst(1), eng.GT)
-		for _, cc := range eng.CallsIn(fn, cl+"compactCleaner.compact") {
-			g, w := eng.GuardedBy(fn, cc.(ssa.Instruction), few)
-			c.Check(g && len(few) > 0, "single-segment log is not compacted", c.Pos(cc.(ssa.Instruction)), "compact only when len(segments) > 1", "a log with a single (active) segment can be compacted (path "+w.String()+")")
-		}
-	}
-	if fn := c.Fn(cl + "(*commitLog).clean"); fn != nil {
-		for _, cc := range eng.CallsIn(fn, cl+"compactCleaner.Compact") {
-			ok := eng.Call(-1, cl+"commitLog.HighWatermark")(cc.Common().Args[1])
-			c.Check(ok, "compaction bounded by the current high watermark", c.Pos(cc.(ssa.Instruction)), "Compact(l.HighWatermark(), …)", "Compact is not given the log's current high watermark")
-		}
-	}
-	c.Floor(5)
+	ruleNewestSegmentUntouched(c)
 
 	// ---- R08.3 byte identity
 	c.Rule("R08.3", "K5")
@@ -430,4 +373,69 @@ func isScanResult(v ssa.Value) bool {
 	}
 	c, ok := e.Tuple.(*ssa.Call)
 	return ok && eng.CalleeRef(&c.Call) == cl+"segmentScanner.Scan"
+}
+
+// ruleNewestSegmentUntouched (R08.2, shared with C11): compaction leaves the active segment alone and keeps every segment it did not rewrite.
+func ruleNewestSegmentUntouched(c *eng.Ctx) {
+	p := c.P
+	_ = p
+	if fn := c.Fn(cl + "(*compactCleaner).compact"); fn != nil {
+		// the loop ranges over segments[:len(segments)-1]
+		okRange := false
+		eng.Instrs(fn, func(in ssa.Instruction) {
+			if sl, ok := in.(*ssa.Slice); ok && eng.Param("segments")(sl.X) && sl.Low == nil && sl.High != nil {
+				if eng.Bin(token.SUB, eng.Len(eng.Param("segments")), eng.IntConst(1))(sl.High) {
+					okRange = true
+				}
+			}
+		})
+		c.Check(okRange, "compaction skips the newest segment", p.Pos(fn.Pos()), "cleanSegment is applied to segments[:len(segments)-1]", "compact does not exclude the last (active) segment from rewriting")
+		for _, cs := range eng.CallsIn(fn, cl+"compactCleaner.cleanSegment") {
+			seg := eng.ArgOf(cs.Common(), "seg")
+			if seg == nil {
+				seg = cs.Common().Args[len(cs.Common().Args)-3]
+			}
+			ia := indexOfLoad(seg)
+			ok := false
+			if ia != nil {
+				if sl, ok2 := ia.X.(*ssa.Slice); ok2 && sl.High != nil {
+					ok = true
+				}
+			}
+			c.Check(ok, "cleanSegment argument", c.Pos(cs.(ssa.Instruction)), "an element of segments[:len-1]", "cleanSegment is applied to a segment that is not taken from segments[:len-1]")
+		}
+		// last appended unchanged
+		okLast := false
+		eng.Instrs(fn, func(in ssa.Instruction) {
+			call, ok := in.(*ssa.Call)
+			if !ok {
+				return
+			}
+			b, ok := call.Call.Value.(*ssa.Builtin)
+			if !ok || b.Name() != "append" {
+				return
+			}
+			el := variadicElems(call.Call.Args[1])
+			if len(el) == 1 {
+				if ia := indexOfLoad(el[0]); ia != nil && eng.Param("segments")(ia.X) && eng.Bin(token.SUB, eng.Len(eng.Param("segments")), eng.IntConst(1))(ia.Index) {
+					okLast = true
+				}
+			}
+		})
+		c.Check(okLast, "newest segment carried over unchanged", p.Pos(fn.Pos()), "compacted = append(compacted, segments[len-1])", "the newest segment is not appended unchanged to the compacted list")
+	}
+	if fn := c.Fn(cl + "(*compactCleaner).Compact"); fn != nil {
+		few := eng.CmpEdges(fn, eng.Len(eng.Param("segments")), eng.IntConst(1), eng.GT)
+		for _, cc := range eng.CallsIn(fn, cl+"compactCleaner.compact") {
+			g, w := eng.GuardedBy(fn, cc.(ssa.Instruction), few)
+			c.Check(g && len(few) > 0, "single-segment log is not compacted", c.Pos(cc.(ssa.Instruction)), "compact only when len(segments) > 1", "a log with a single (active) segment can be compacted (path "+w.String()+")")
+		}
+	}
+	if fn := c.Fn(cl + "(*commitLog).clean"); fn != nil {
+		for _, cc := range eng.CallsIn(fn, cl+"compactCleaner.Compact") {
+			ok := eng.Call(-1, cl+"commitLog.HighWatermark")(cc.Common().Args[1])
+			c.Check(ok, "compaction bounded by the current high watermark", c.Pos(cc.(ssa.Instruction)), "Compact(l.HighWatermark(), …)", "Compact is not given the log's current high watermark")
+		}
+	}
+	c.Floor(5)
 }
